@@ -4,7 +4,8 @@ V1 (A1)  no exception can leave an iteration of the event loop: from the loop he
          the normal nor the exceptional exit of main_loop is reachable.
 V2 (A2)  every loop reachable from the loop body has a variant; the only blocking network
          wait is select() with a finite timeout and recv/recvfrom/accept run only on
-         sockets reported readable.
+         sockets reported readable; all timer readings come from one clock (a sweep with
+         nothing due does nothing, however often stray datagrams make the loop pass it).
 V3 (A1)  rendering a received message for the log (IkeSa.log_message reach) cannot raise,
          and no to_dict emits a raw byte string into json.dumps.
 V4 (A8)  an IKE_SA registered by an event that then fails is unregistered again (shared
@@ -179,6 +180,9 @@ def run(ctx):
     # what a failing datagram makes the controller drop is at most the entry this very datagram created: an error path that removes
     # whatever IKE_SA a cleartext header field selected lets one datagram take an established IKE_SA away from the daemon
     common.deleted_observed(ctx, esc, 'V4')
+    # stray datagrams only make the loop pass its timer sweep more often: harmless as long as a sweep with nothing due does nothing,
+    # i.e. deadlines and `now` are readings of the same clock
+    common.one_clock(ctx, 'V2')
     # ---------------------------------------------------------------- V2
     # a DELETED entry leaves the table only after its kernel SAs were removed: that removal must not be able to fail on an SA
     # the kernel has already dropped, or the dead entry raises again on every later iteration
